@@ -53,6 +53,8 @@ class CNode(fm.TimeComponent):
         self._time = T0 + H(start)
         self.start = start
         self.status_log = []
+        self.ncalls = 0
+        self.published = {}  # output -> value handed in by the call that published the initial data ('refine' outputs)
 
     def _next_time(self):
         return self.time + H(1)
@@ -105,13 +107,20 @@ class CNode(fm.TimeComponent):
                 push_infos[n] = self.info_out()
             if dm == "const":
                 push[n] = self.const_value(n)
+            elif dm == "refine":  # the initial state is still improving: every call hands in a newer value until the data is out
+                push[n] = self.const_value(n) + 0.25 * self.ncalls
             else:
                 deps = dm.split(":")[1].split(",")
                 if all(conn.in_data.get(d) is not None for d in deps):
                     push[n] = sum(float(conn.in_data[d].magnitude.ravel()[0]) for d in deps) + 1.0
         before = snapshot(conn)
+        was_out = {n: bool(conn.data_pushed.get(n)) for n in push}
+        self.ncalls += 1
         self.try_connect(st, exchange_infos=ex_infos, push_infos=push_infos, push_data=push)
         after = snapshot(conn)
+        for n, v in push.items():
+            if not was_out[n] and conn.data_pushed.get(n):
+                self.published[n] = v
         self.status_log.append((self.status.name, before != after, complete(after)))
         if self.status == CS.CONNECTED and World.links is not None:
             # independent of the connector's own bookkeeping: every consumer of every output must have exchanged its metadata
@@ -157,7 +166,7 @@ def fixpoint(specs, links):
                     add(("outPushed", X, o))
                 if ("outPushed", X, o) in F and all(("inInfo", Z, zi) in F for Z, zi in cons[(X, o)]):
                     add(("outComplete", X, o))
-                deps = [] if dm == "const" else dm.split(":")[1].split(",")
+                deps = [] if dm in ("const", "refine") else dm.split(":")[1].split(",")
                 if ("outComplete", X, o) in F and all(("pulled", X, d) in F for d in deps):
                     add(("data", X, o))
             for i, mode in s[1]:
@@ -179,8 +188,9 @@ def fixpoint(specs, links):
     return F, tuple(sorted(stuck))
 
 
-def expected_value(specs, links, X, i, memo=None):
-    """initial value an input must receive if everything is derivable"""
+def expected_value(specs, links, X, i, memo=None, published=None):
+    """initial value an input must receive if everything is derivable; published: {(component, output): value handed in by the call
+    that published a 'refine' output}"""
     sp = {s[0]: s for s in specs}
     src = {(l[1][0], l[1][1]): (l[0][0], l[0][1]) for l in links}
     Y, yo = src[(X, i)]
@@ -188,7 +198,9 @@ def expected_value(specs, links, X, i, memo=None):
         if o == yo:
             if dm == "const":
                 return 100.0 * (ord(Y[0]) - 64) + 10.0 * [x[0] for x in sp[Y][2]].index(o)
-            return sum(expected_value(specs, links, Y, d) for d in dm.split(":")[1].split(",")) + 1.0
+            if dm == "refine":
+                return (published or {}).get((Y, o), float("nan"))
+            return sum(expected_value(specs, links, Y, d, None, published) for d in dm.split(":")[1].split(",")) + 1.0
 
 
 def run_connect(specs, links, order, link_order, cache=True):
